@@ -203,6 +203,30 @@ PROPS = {
              "pair class (leaf); depth>=3 mixing and/or (tree); nil or unequal pair (matrix).",
         assumptions=COMMON_ASSUMPTIONS + ["filters are well typed (value of the field's Go type, typed nil for nullable kinds); ordering operators on to-one relationships are not generated"],
     ),
+    "C14": dict(
+        regress="TestC14Regress",
+        subs=[dict(test="TestC14Edits", quick=6000, thorough=50000)],
+        rule="rapid state machine (t.Repeat, ~30 steps on average) over one Schema: AddType (well-formed Type values, names from {a,b,ab,c,''} so "
+             "duplicates and empty names are frequent), RemoveType (absent, first, middle, last), AddAttr (valid, duplicate, empty, unknown type, "
+             "invalid kinds 0/99/-1 with and without Nullable), RemoveAttr, AddRel (valid, duplicate, empty name, empty target, unknown type), RemoveRel, "
+             "AddTwoWayRel (both directions, same type on both ends, missing types, taken and empty names; own-inverse skipped). A reference model is "
+             "stepped in parallel; after every step: no panic, the schema equals the model (type order, names, maps), invariants (unique non-empty names, "
+             "map keys = names, valid kinds, non-empty targets), HasType/GetType agree with the list for every pool name, an edit that returned an error "
+             "left a deep snapshot unchanged, removing something absent changed nothing, an edit the model accepts succeeded and one it rejects failed. "
+             "Non-trivial = history with a removal of a non-last type, a failed edit, or a two-way add given in non-normalised direction.",
+        assumptions=COMMON_ASSUMPTIONS + ["attribute and relationship name pools are disjoint (cross-kind name clashes are not decided by the statement)",
+                                          "an edit whose preconditions fail (missing type, taken or empty name, invalid kind) is expected to return an error"],
+    ),
+    "C15": dict(
+        regress="TestC15Regress",
+        subs=[dict(test="TestC15Check", quick=20000, thorough=150000)],
+        rule="Schemas of 1-5 soft types built directly from Type literals with 0-8 relationships: existing or missing targets, one-way and two-way, "
+             "inverses present / missing / misnamed / on another type / with wrong FromType, self references and own-inverse relationships; half of the "
+             "schemas get no planted fault. Oracle: independent per-relationship predicate (dangling target; inverse named and FromType != owner or no "
+             "relationship of the target naming it back); Check() is empty iff nothing offends, has at least one error per offending relationship, does "
+             "not panic and leaves a deep snapshot of the schema unchanged. Non-trivial = >=2 types and >=1 two-way relationship.",
+        assumptions=COMMON_ASSUMPTIONS + ["'names it back' is the name pair test (FromName/ToName), as in the code; an inverse that names back but targets a third type is not required to be reported"],
+    ),
 }
 
 LEVEL_NOTE = ("Trusted base: Go toolchain and runtime, encoding/json, reflect, rapid v1.3.0, the harness' own generators and "
@@ -210,6 +234,16 @@ LEVEL_NOTE = ("Trusted base: Go toolchain and runtime, encoding/json, reflect, r
               "violation is not a proof.")
 
 MANIFEST_TEXT = {
+    "C14": dict(
+        technique="stateful property-based testing (rapid state machine) against a reference model with all-or-nothing snapshots",
+        level_text="Exploration: edit histories are generated and shrunk as one value; the model decides for every edit whether it must succeed, and the schema is compared with it after every step.",
+        level_note=LEVEL_NOTE,
+    ),
+    "C15": dict(
+        technique="property-based testing (rapid): generated schemas with planted faults against an independent per-relationship predicate",
+        level_text="Exploration: both directions of the iff are exercised (about half of the generated schemas are coherent), plus the lower bound on the number of errors and non-mutation.",
+        level_note=LEVEL_NOTE,
+    ),
     "C09": dict(
         technique="property-based testing (rapid): reference model (select/filter/order/slice) + validity predicate and partition relation for non-total orders",
         level_text="Exploration: every case runs Range several times (page, shuffled twin on another implementation, all consecutive pages) against a model built on the C10 reference evaluator.",
